@@ -606,14 +606,16 @@ func handleInputStream(s *Session, handler Handler) (err error) {
 				c: readerChan.c,
 			}:
 				<-readerChan.c
+				// Consume the rest of the stream before continuing the loop.
+				_, err = xmlstream.Copy(discard, inner)
+				if err != nil {
+					return err
+				}
+				return nil
 			case <-readerChan.ctx.Done():
+				// Nobody is waiting for this response anymore: like any other
+				// unexpected response it goes to the handler.
 			}
-			// Consume the rest of the stream before continuing the loop.
-			_, err = xmlstream.Copy(discard, inner)
-			if err != nil {
-				return err
-			}
-			return nil
 		}
 	}
 
